@@ -1,5 +1,6 @@
 \* C14, quick tier, emission of (input, outcome) pairs for the replay (-workers 1; the invariants are checked by MC_Complexity.cfg on the same state space).  Symbolic machine integers: MAX = 2*H+1 = [2,1]  (Go: H = 2^62-1, MAX = math.MaxInt).
 \* All operations with <= 3 selection nodes x {no custom cost, one slot, two slots, all slots uniform}.
+\* Measured: 54,447 distinct states, 27,097 printed cases (+1 schema line); 1 worker ~9-15 s.
 CONSTANTS
   MaxH = 2
   MaxD = 1
